@@ -30,7 +30,8 @@ var (
 	tokURL    = []string{"http://a.b", "https://example.com/p?q=1&r=2", "http://a.b/(c)", "ftp://x.yz", "www.a.bc", "www.x.y.zz/q", "a@b.c", "foo+x@bar.example.com", "mailto:a@b.c", "javascript:alert(1)", "JaVaScRiPt:x", "vbscript:x", "file:///etc/passwd", "data:text/html,x", "data:image/png;base64,AA", "/url", "/uri \"title\"", "<http://a.b>", "<a@b.c>", "<javascript:x>", "<made-up:x>", "<http://a b>", "<>", "(/u 't')", "(<u v>)", "(/u \"t\")", "http://", "://", "x://y"}
 	tokAttr   = []string{"{#id}", "{.cls}", "{#i .c k=v}", "{k=\"v\"}", "{data-x=y}", "{onclick=\"x\"}", "{#a #b}", "{.a.b}", "{k='v'}", "{k=v w}", "{", "}", " {#x}", "{#é}", "{k=\"a&b<c>\"}", "{k=\"a\\\"b\"}", "{style=\"x\"}", "{a=1 a=2}", "{title=\"<\"}", "{#}", "{.}", "{=}", "{k=}", "{k=\"", "{#id .c}\n"}
 	tokExt    = []string{"~~", "~", "~~~", "~~a~~", "|", "|-|", "|:-:|", "| - | - |", "|a|b|\n|-|-|\n|c|d|", "---|---", ":--", "--:", ":-:", "\\|", "[^1]", "[^1]:", "[^a]: ", "[^", "^]", "[ ]", "[x]", "[X] ", "- [ ] ", "- [x] ", ": ", ":", "\n: ", "\n:   ", "'", "\"", "--", "---", "...", "<<", ">>", "''", "\"a\"", "'a'", "a's", "\\ ", "(c)", "1'", "''\""}
-	tokHost   = []string{"\x00", "\x00\x00", "\x80", "\xbf", "\x80\x80", "\xc3", "\xe6\x97", "\xf0\x9f\x98", "\xc0\xaf", "\xff", "\xfe", "\xef\xbb\xbf", "\u200b", "\u00a0", "\u2003", "\u3000", "　", "、", "。", "（", "）", "「", "」", "ｱ", "가", "😀", "\x01", "\x1b", "\x7f", "\x0b", "\x0c", "\u2028", "\u0085", "İ", "ǅ", "ſ", "K", "ς"}
+	tokHost   = []string{"\x00", "\x00\x00", "\x80", "\xbf", "\x80\x80", "\xc3", "\xe6\x97", "\xf0\x9f\x98", "\xc0\xaf", "\xff", "\xfe", "\xef\xbb\xbf", "\u200b", "\u00a0", "\u2003", "\u3000", "　", "、", "。", "（", "）", "「", "」", "ｱ", "가", "😀", "\x01", "\x1b", "\x7f", "\x0b", "\x0c", "\u2028", "\u0085", "İ", "ǅ", "ſ", "K", "ς",
+		"日本 \n語", "語\n語", "a\n語", "語\na", "、\n語", "語 \n 語", "語\\\n語", "語  \n語", "語\n*語*", "*語*\n語", "語\n`a`", "ｱ\nｲ", "가\n나", "語\n\x80", "\x80\n語", "語\n", "\n語"}
 )
 
 type tokenTable struct {
